@@ -159,3 +159,38 @@ def restore_across_deadline(rng, n=12):
         if rnd == 0:
             lines.append("A 980")
     return lines
+
+
+def interplay(rng):
+    """a TTL operation on ONE key must not change when ANOTHER key expires (seeded change C06-expiry-horizon-fastpath: a shared "earliest deadline" bound moved to
+    the new deadline of the key that held it, so every key due in between stopped expiring).  Keys a* get a 1 s deadline (the earliest), keys b* a 2 s deadline, keys c*
+    none, all late in a second; then the a* keys are extended / persisted / deleted / overwritten / renamed / re-set (each a way of replacing or dropping the earliest
+    deadline), in a shuffled order.  One second later the b* keys are probed (alive, TTL 1), two seconds later they must all be gone whatever happened to the a* keys.
+    ≈ 3.2 s of wall clock."""
+    lines = ["R", "A 820"]
+    na = 7
+    a = [b"a%d" % i for i in range(na)]
+    b = [b"b%d" % i for i in range(6)]
+    for k in a:
+        lines.append(X(["SET", k, "v", "EX", "1"], [k]))
+    for i, k in enumerate(b):
+        lines.append(X(["SET", k, "v", "EX", "2"] if i % 2 == 0 else ["SETEX", k, "2", "v"], [k]) if i % 3 else X(["SET", k, "v"], [k]))
+        if i % 3 == 0:
+            lines.append(X(["EXPIRE", k, "2"], [k]))
+    lines.append(X(["SET", "c0", "stay"], [b"c0"]))
+    mods = [["EXPIRE", a[0], "1000"], ["SETEX", a[1], "1000", "w"], ["PERSIST", a[2]], ["DEL", a[3]], ["SET", a[4], "w"], ["RENAME", a[5], b"a5'"], ["EXPIRE", a[6], "500", "GT"]]
+    rng.shuffle(mods)
+    for m in mods:
+        lines.append(X(m, [m[1], b"a5'"]))
+    lines.append(X(["PING"], [], full=True))
+    for rnd in range(2):
+        lines.append("A 30")
+        for k in b:
+            lines += [X(["GET", k], [k]), X(["TTL", k], [k]), X(["EXISTS", k], [k])]
+        lines.append(X(["KEYS", "b*"], b))
+        lines.append(X(["PING"], [], full=True))
+    lines.append("A 980")
+    for k in b:
+        lines.append(X(["GET", k], [k]))
+    lines.append(X(["PING"], [], full=True))
+    return lines
